@@ -372,3 +372,40 @@ Definition spec_step (s : sstate) (b : buf) (o : op) : sstate * out :=
   | FindCRLF from => keep l (find_spec find_crlf (Z.to_nat from) l)
   | FindEOL from => keep l (find_spec find_eol (Z.to_nat from) l)
   end.
+
+(* ---- the narrowing casts of toStringPiece() / shrink() (review B-3) -----------------------
+   Buffer.h:174  StringPiece(peek(), static_cast<int>(readableBytes()))
+   Buffer.h:367  other.append(toStringPiece())  ->  append(str.data(), str.size()), int size()
+   [toStringPiece] / [shrink] / [step] above describe the class for readable sizes below 2^31
+   (they ignore the cast); the [_c] versions below model it: the length of the piece is the
+   readable size wrapped to a signed 32-bit int.  A negative length is not a piece of the
+   buffer (shrink: append(data, (size_t)negative) throws std::length_error) = [Fault]; a
+   non-negative wrapped length silently keeps only that many bytes.  C10_Cast.v proves
+   [step_c st o = step st o] whenever readableBytes < 2^31 and what happens beyond.
+   The width of the two casts is regenerated from the source (Gen_C10.toStringPiece_len_cast_bits,
+   Gen_C10.append1_size_bits; link C10_GenLink.gen_int_casts). *)
+Definition int_bits : Z := 32.
+Definition int_cast (z : Z) : Z :=
+  let m := (z mod 2 ^ int_bits)%Z in
+  if (m <? 2 ^ (int_bits - 1))%Z then m else (m - 2 ^ int_bits)%Z.
+
+Definition toStringPiece_len (b : buf) : Z := int_cast (Z.of_nat (readableBytes b)).
+
+Definition toStringPiece_c (b : buf) : res (list byte) :=
+  let k := toStringPiece_len b in
+  if (k <? 0)%Z then Fault else peekBytes (Z.to_nat k) b.
+
+Definition shrink_c (reserve : nat) (b : buf) : res buf :=
+  let k := toStringPiece_len b in
+  if (k <? 0)%Z then Fault else
+  d <- mem (read_at (store b) (ridx b) (Z.to_nat k)) ;;        (* toStringPiece(): k bytes at peek() *)
+  o1 <- ensureWritable (readableBytes b + reserve) (new_buf kInitialSize) ;;
+  append d o1.
+
+Definition step_c (st : state) (o : op) : res (state * out) :=
+  let b := fst st in
+  match o with
+  | ToStringPiece => d <- toStringPiece_c b ;; Ok (st, OBytes d)
+  | Shrink r => on_fst (shrink_c r b) st OUnit
+  | _ => step st o
+  end.
